@@ -43,6 +43,26 @@ let of_effect (e : effect) : v =
   | EFetch (u, h) -> L [I 0; of_str u; of_dict h]
   | EOpen p -> L [I 1; of_str p]
 
+let rec to_node (x : v) : node =
+  match x with
+  | L [I 0; s] -> NText (to_str s)
+  | L [I 1; name; attrs; children] -> NElem (to_str name, to_dict attrs, to_list to_node children)
+  | _ -> bad "node"
+let to_anchor = to_pair to_dict (to_list to_node)
+let to_link (x : v) : link = match x with L [h; t] -> { l_href = to_str h; l_text = to_str t } | _ -> bad "link"
+let of_link (l : link) : v = L [of_str l.l_href; of_str l.l_text]
+let of_entry (e : entry) : v =
+  match e with
+  | Unchanged (o, n) -> L [I 0; of_link o; of_link n]
+  | Changed (o, n) -> L [I 100; of_link o; of_link n]
+  | Removed o -> L [I (-1); of_link o]
+  | Added n -> L [I 1; of_link n]
+let to_tag (x : v) : tag = match x with I 0 -> Equal | I 1 -> Replace | I 2 -> Delete | I 3 -> Insert | _ -> bad "tag"
+let of_tag (t : tag) : v = match t with Equal -> I 0 | Replace -> I 1 | Delete -> I 2 | Insert -> I 3
+let to_opcode (x : v) : opcode =
+  match x with L [t; a1; a2; b1; b2] -> ((to_tag t, (to_nat a1, to_nat a2)), (to_nat b1, to_nat b2)) | _ -> bad "opcode"
+let of_opcode (((t, (a1, a2)), (b1, b2)) : opcode) : v = L [of_tag t; of_nat a1; of_nat a2; of_nat b1; of_nat b2]
+
 (* ---- dispatch ---- *)
 let dispatch (fn : Stdlib.String.t) (args : v list) : v =
   match fn, args with
@@ -113,6 +133,18 @@ let dispatch (fn : Stdlib.String.t) (args : v list) : v =
       let (n, d) = html_source_diff (fun _ _ -> raw) [] [] in
       let of_z (z : z) : v = (match z with Z0 -> I 0 | Zpos p -> I (int_of_pos p) | Zneg p -> I (- (int_of_pos p))) in
       L [ of_n n; of_list (of_pair of_z of_str) d; of_str (old_side d); of_str (new_side d) ]
+  | "links_diff", [a; b] ->
+      let (n, d) = links_diff (to_list to_anchor a) (to_list to_anchor b) in
+      L [of_nat n; of_list of_entry d]
+  | "page_links", [a] -> of_list of_link (page_links (to_list to_anchor a))
+  | "links_assemble", [a; b; ops] ->
+      let d = Extracted.assemble_diff (to_list to_link a) (to_list to_link b) (to_list to_opcode ops) in
+      L [of_nat (Extracted.count_changes0 d); of_list of_entry d]
+  | "links_rebalance", [a; b; ops] ->
+      of_list of_opcode (rebalance (to_list to_link a) (to_list to_link b) (to_list to_opcode ops))
+  | "links_opcodes", [a; b] ->
+      of_list of_opcode (get_opcodes same_key rough_eq dlink (to_list to_link a) (to_list to_link b))
+  | "clean_href", [h] -> of_str (clean_href (to_str h))
   | "cors_allow_origin", [conf; rh] ->
       of_opt of_str (cors_allow_origin (to_opt to_str conf) (to_dict rh))
   | "upstream_headers", [q; rh] -> of_dict (upstream_headers (to_dict q) (to_dict rh))
